@@ -380,6 +380,12 @@ pub struct Gen {
 	pub no_plateau: bool,
 	/// force a x1/1024 drop of the price scale at this call (regime the running-sum designs are sensitive to)
 	pub force_drop_at: Option<u64>,
+	/// runs of consecutive zero-volume candles (untraded stretches) of random length
+	pub droughts: bool,
+	drought_left: u64,
+	/// regimes lasting hundreds of steps, including steady rallies / declines without pullbacks (C07)
+	pub long_regimes: bool,
+	regime_left: u64,
 	calls: u64,
 	pub rng: Rng,
 	scale: f64,
@@ -394,7 +400,7 @@ impl Gen {
 		let scale = *rng.pick(&[1e-3, 0.37, 1.0, 12.5, 100.0, 3e4]);
 		let cur = scale * (0.5 + rng.unit());
 		let shape = rng.below(8);
-		Self { no_zero_volume: false, no_plateau: false, force_drop_at: None, calls: 0, rng, scale, cur, shape, positive }
+		Self { no_zero_volume: false, no_plateau: false, force_drop_at: None, droughts: false, drought_left: 0, long_regimes: false, regime_left: 0, calls: 0, rng, scale, cur, shape, positive }
 	}
 	fn finish(&mut self, mut v: f64) -> f64 {
 		if self.positive {
@@ -423,10 +429,17 @@ impl Gen {
 			self.cur /= 1024.0;
 			self.shape = 1;
 		}
-		if self.rng.chance(0.04) {
+		if self.long_regimes {
+			if self.regime_left == 0 {
+				self.shape = self.rng.below(12);
+				// steady trends outlast PeriodType::MAX bars
+				self.regime_left = if self.shape >= 8 { 270 + self.rng.below(200) } else { 20 + self.rng.below(200) };
+			}
+			self.regime_left -= 1;
+		} else if self.rng.chance(0.04) {
 			self.shape = self.rng.below(8);
 		}
-		if self.rng.chance(0.01) {
+		if self.rng.chance(if self.long_regimes { 0.002 } else { 0.01 }) {
 			// abrupt change of scale
 			let k = *self.rng.pick(&[1024.0, 1.0 / 1024.0, 32.0, 1.0 / 32.0]);
 			if self.scale * k > 1e-3 && self.scale * k < 1e9 {
@@ -446,7 +459,9 @@ impl Gen {
 			4 => -self.cur + s * 0.01 * (u - 0.5),            // sign flips
 			5 => if u < 0.1 { self.cur * 50.0 } else { s * (0.9 + 0.2 * u) }, // spikes
 			6 => self.cur + s * 0.01 * u,                     // monotone up
-			_ => self.cur - s * 0.01 * u,                     // monotone down
+			7 => self.cur - s * 0.01 * u,                     // monotone down
+			8..=9 => self.cur * (1.0 + 0.004 * (0.5 + u)),    // steady rally (every bar a new high, no pullback)
+			_ => self.cur * (1.0 - 0.004 * (0.5 + u)),        // steady decline
 		};
 		self.finish(v)
 	}
@@ -455,16 +470,23 @@ impl Gen {
 		self.positive = true;
 		let prev = self.cur.abs().max(self.scale * 1e-3);
 		let close = self.scalar();
-		let open = if self.rng.chance(0.7) { prev } else { close * (1.0 + 0.02 * (self.rng.unit() - 0.5)) };
+		let open = if self.rng.chance(0.7) || self.shape >= 8 { prev } else { close * (1.0 + 0.02 * (self.rng.unit() - 0.5)) };
 		let hi0 = open.max(close);
 		let lo0 = open.min(close);
 		let (high, low) = match self.rng.below(6) {
+			_ if self.shape >= 8 => (hi0 * (1.0 + 0.0005 * self.rng.unit()), lo0 * (1.0 - 0.0005 * self.rng.unit())),
 			0 => (hi0, lo0),                                                   // no wicks (flat candle when open == close)
 			1 => (hi0 * (1.0 + 0.01 * self.rng.unit()), lo0),
 			2 => (hi0, lo0 * (1.0 - 0.01 * self.rng.unit())),
 			_ => (hi0 * (1.0 + 0.03 * self.rng.unit()), lo0 * (1.0 - 0.03 * self.rng.unit())),
 		};
+		if self.droughts && self.drought_left == 0 && self.rng.chance(0.03) {
+			self.drought_left = 2 + self.rng.below(60);
+		}
+		let dry = self.drought_left > 0;
+		self.drought_left = self.drought_left.saturating_sub(1);
 		let volume = match self.rng.below(8) {
+			_ if dry => 0.0,
 			0 if !self.no_zero_volume => 0.0,
 			1 => 1.0,
 			_ => (self.rng.unit() * 1000.0 + 1.0).floor() * if self.rng.chance(0.3) { 1.37 } else { 1.0 },
